@@ -647,4 +647,29 @@ pub fn run(rng0: &mut Rng, out: &mut Out, thorough: bool, variant: &str) {
     for _ in 0..n_random {
         int_random_history(rng, out, 40);
     }
+    big_counts(out);
+}
+
+// count_ones of filled vectors with 2^32 set bits and more (512 MiB of words each, dropped right after the call).
+// Such a vector cannot be replayed on the list-based model: the expected value is given by the theorem
+// C05_big_with_len_count (coq/Props/C05_big.v), see CBigCount in coq/Check/C05.v. Runs in every build variant:
+// an accumulator narrower than usize panics with overflow checks on and wraps silently without them.
+fn big_counts(out: &mut Out) {
+    const DBG: bool = cfg!(debug_assertions);
+    let two32: usize = 1usize << 32;
+    for (len, value) in [(two32 - 1, true), (two32 + 100, true), (two32 + 7, false)] {
+        let r = catch(|| {
+            let v = RawVector::with_len(len, value);
+            let c = v.count_ones();
+            drop(v);
+            c
+        });
+        out.stat(if value { "big.count.ones" } else { "big.count.zeros" });
+        out.case(
+            "raw.bigcount",
+            format!("CBigCount {} {} {} {}", b(DBG), nu(len), b(value), ires(&r, |x| nu(*x))),
+            format!("{{\"op\":\"RawVector::with_len(len, value).count_ones()\",\"len\":{},\"value\":{},\"observed\":{}}}", len, value, jres(&r, |x| format!("{}", x))),
+            true,
+        );
+    }
 }
